@@ -82,7 +82,27 @@ func callerSig(c string) string {
 func (d *Driver) afterStep()                                {}
 func (d *Driver) checkAtApply(op *Op)                       {}
 func (d *Driver) onClaimEdge(o *elObj, ev *ClaimEvt)        {}
-func (d *Driver) checkTransition(o *elObj, from, to string) {}
+// checkTransition: the recorded state transitions of one election object form a chain - each
+// from-state equals the previous to-state, or CANDIDATE right after Start (Start moves the
+// state to CANDIDATE without recording a transition). Called from the metrics observer, i.e.
+// inside the library's critical section, with d.mu held.
+func (d *Driver) checkTransition(o *elObj, from, to string) {
+	if !d.plan.judges("C18") || o.dead {
+		return
+	}
+	d.judgedInc("C18")
+	if !validStates[from] || !validStates[to] {
+		d.h.violate("C18", "undocumented-state-in-transition/"+from+"->"+to, fmt.Sprintf("i%d.%d recorded transition %s -> %s", o.in.idx, o.gen, from, to), d.now(), d.step)
+		return
+	}
+	want := o.lastTo
+	if o.afterStart || want == "" {
+		want = "CANDIDATE"
+	}
+	if from != want {
+		d.h.violate("C18", fmt.Sprintf("transition-chain-broken/%s->%s/after:%s", from, to, want), fmt.Sprintf("i%d.%d recorded transition %s -> %s but its previous to-state was %s", o.in.idx, o.gen, from, to, want), d.now(), d.step)
+	}
+}
 func (d *Driver) finalChecks()                              {}
 
 // ---- post-run judgement ----
